@@ -86,7 +86,7 @@ def raw_path(ctx, tier):
     cand = [grammar.rand_grammar(rng.fork("x%d" % i)) for i in range(40 if tier == "quick" else 300)]
     dgs = [dcorp.DG("w%d" % i, t, {"pest_optimizer": False}) for i, t in enumerate(texts + cand)]
     ok = dcorp.prepare(dgs)
-    ok = [g for g in ok if int(g.name[1:]) < len(texts)] + [g for g in ok if int(g.name[1:]) >= len(texts)][:10 if tier == "quick" else 80]
+    ok = [g for g in ok if int(g.name[1:]) < len(texts)] + gencore.wf_only([g for g in ok if int(g.name[1:]) >= len(texts)])[:10 if tier == "quick" else 80]
     try:
         run = dcorp.run_corpus("raw_%s" % tier, ok, dcorp.inputs_for, MODEL_FLAGS)
     except RuntimeError as e:
